@@ -45,13 +45,17 @@ def isStdAlphabet (c : UInt8) : Bool :=
   let n := c.toNat
   (65 ≤ n && n ≤ 90) || (97 ≤ n && n ≤ 122) || (48 ≤ n && n ≤ 57) || n = 0x2B || n = 0x2F
 
-/-- padded standard base64 of a byte string of length `len`: `4 * ceil(len / 3)` characters, all
-from the standard alphabet except `(3 - len % 3) % 3` trailing `=` -/
-def isPaddedStdBase64 (s : Bytes) (len : Nat) : Bool :=
-  let pad := (3 - len % 3) % 3
-  s.length == 4 * ((len + 2) / 3) &&
-  (s.take (s.length - pad)).all isStdAlphabet &&
-  (s.drop (s.length - pad)).all (· == 0x3D)
+/-- padded standard base64 (RFC 4648 §4) of a byte string of length `len`: groups of four
+alphabet characters for every three bytes; a final group for one byte is two characters and
+`==`, for two bytes three characters and `=` -/
+def isPaddedStdBase64 : Bytes → Nat → Bool
+  | [], 0 => true
+  | [c0, c1, p, q], 1 => isStdAlphabet c0 && isStdAlphabet c1 && p == 0x3D && q == 0x3D
+  | [c0, c1, c2, q], 2 => isStdAlphabet c0 && isStdAlphabet c1 && isStdAlphabet c2 && q == 0x3D
+  | c0 :: c1 :: c2 :: c3 :: rest, n + 3 =>
+    isStdAlphabet c0 && isStdAlphabet c1 && isStdAlphabet c2 && isStdAlphabet c3 &&
+      isPaddedStdBase64 rest n
+  | _, _ => false
 
 def isDigitB (c : UInt8) : Bool := 0x30 ≤ c.toNat && c.toNat ≤ 0x39
 
@@ -112,5 +116,64 @@ def literalDenotes (raw s : Bytes) : Prop :=
   match raw with
   | 0x22 :: body => readString (body.length + 1) body = some (s, body, [])
   | _ => False
+
+/-! ## structure rules
+
+"Oneofs are objects with `!type` plus exactly the key it names, flattened objects are inlined
+into their parent, unset members are omitted, and member names are the schema's JSON names."
+
+Stated for properties with a one-element proto path (the flattened / exposed forms are modelled
+in `Encode` and validated against Go, but not yet part of this relation). -/
+
+mutual
+/-- `t` is the documented JSON representation of value `v` of a field with schema `fld` -/
+inductive Conforms (env : Env) (O : Oracle) : Field → PVal → PTree → Prop
+  | scalar (k : ScalarKind) (v : PVal) (t : PTree) :
+      scalarConforms O k v t → Conforms env O (.scalar k) v t
+  /-- an enum is a string: the short option name of the number -/
+  | enum (ref : String) (pfx : Bytes) (opts : List (Bytes × Int)) (n : Int) (name lit : Bytes) :
+      env.find ref = some (.enum pfx opts) → (name, n) ∈ opts →
+      Conforms env O (.enum ref) (.enum n) (.str name lit)
+  | object (ref : String) (props : List PropDef) (fs : Fields) (ms : PMembers) :
+      env.find ref = some (.object props) → MembersConform env O fs props ms →
+      Conforms env O (.object ref) (.msg fs) (.obj ms)
+  /-- a oneof with nothing set is `{}` -/
+  | oneofEmpty (ref : String) (ops : List PropDef) :
+      env.find ref = some (.oneof ops) →
+      Conforms env O (.oneof ref) (.msg []) (.obj (.nil .closed))
+  /-- a oneof is `{"!type": name, name: value}` -/
+  | oneofSet (ref : String) (ops : List PropDef) (p : PropDef) (k : Nat) (v : PVal) (t : PTree)
+      (l1 l2 l3 : Bytes) :
+      env.find ref = some (.oneof ops) → p ∈ ops → p.path = [k] → Conforms env O p.field v t →
+      Conforms env O (.oneof ref) (.msg [(k, v)])
+        (.obj (.cons (ascii "!type") l1 (.str p.jsonName l2) (.cons p.jsonName l3 t (.nil .closed))))
+  | array (item : Field) (xs : List PVal) (es : PElems) :
+      ElemsConform env O item xs es → Conforms env O (.array item) (.list xs) (.arr es)
+  | map (item : Field) (kvs : List (Bytes × PVal)) (ms : PMembers) :
+      MapConform env O item kvs ms → Conforms env O (.map item) (.map kvs) (.obj ms)
+/-- the members of an object: one member per *set* property, in schema order, named by the
+property's JSON name; unset properties are omitted -/
+inductive MembersConform (env : Env) (O : Oracle) : Fields → List PropDef → PMembers → Prop
+  | nil (fs : Fields) : MembersConform env O fs [] (.nil .closed)
+  | skip (fs : Fields) (p : PropDef) (ps : List PropDef) (k : Nat) (ms : PMembers) :
+      p.path = [k] → aget k fs = none → MembersConform env O fs ps ms →
+      MembersConform env O fs (p :: ps) ms
+  | emit (fs : Fields) (p : PropDef) (ps : List PropDef) (k : Nat) (v : PVal) (t : PTree)
+      (kraw : Bytes) (ms : PMembers) :
+      p.path = [k] → aget k fs = some v → Conforms env O p.field v t →
+      MembersConform env O fs ps ms →
+      MembersConform env O fs (p :: ps) (.cons p.jsonName kraw t ms)
+inductive ElemsConform (env : Env) (O : Oracle) : Field → List PVal → PElems → Prop
+  | nil (item : Field) : ElemsConform env O item [] (.nil .closed)
+  | cons (item : Field) (x : PVal) (xs : List PVal) (t : PTree) (es : PElems) :
+      Conforms env O item x t → ElemsConform env O item xs es →
+      ElemsConform env O item (x :: xs) (.cons t es)
+inductive MapConform (env : Env) (O : Oracle) : Field → List (Bytes × PVal) → PMembers → Prop
+  | nil (item : Field) : MapConform env O item [] (.nil .closed)
+  | cons (item : Field) (k : Bytes) (v : PVal) (kvs : List (Bytes × PVal)) (t : PTree)
+      (kraw : Bytes) (ms : PMembers) :
+      Conforms env O item v t → MapConform env O item kvs ms →
+      MapConform env O item ((k, v) :: kvs) (.cons k kraw t ms)
+end
 
 end J5V.Codec.Wire
